@@ -114,8 +114,18 @@ def observables_card(cell, n_points=1):
 
 # ---- inert records for eko objects -------------------------------------------
 def _xgrid(ev, grid, log=True, **kw):
-    o = S.record("XGrid", raw=list(grid), log=log, size=len(grid))
-    o.store["__list__"] = list(grid)
+    """eko.interpolation.XGrid: the points are passed through np.unique (sorted, duplicates rejected, fewer than two rejected).
+    Concrete grids are sorted here as eko does; symbolic nodes xg0 < xg1 < ... are ascending by assumption."""
+    pts = [S.num_norm(g) for g in (grid.data if isinstance(grid, S.Arr) else grid)]
+    if all(isinstance(g, (int, Fraction)) for g in pts):
+        u = sorted(set(pts))
+        if len(u) != len(pts):
+            raise S.Raised("ValueError", f"xgrid is not unique: {pts}", None)
+        pts = u
+    if len(pts) < 2:
+        raise S.Raised("ValueError", f"xgrid needs at least 2 points, received {len(pts)}", None)
+    o = S.record("XGrid", raw=list(pts), log=log, size=len(pts))
+    o.store["__list__"] = list(pts)
     return o
 
 
